@@ -1268,9 +1268,10 @@ class PDAG(nx.DiGraph):
                 undirected_neighbors = set(pdag.successors(X)) & set(
                     pdag.predecessors(X)
                 )
+                # (adjacent in either direction: Z may be a parent of Y)
                 neighbors_are_clique = all(
                     (
-                        pdag.has_edge(Y, Z)
+                        pdag.has_edge(Y, Z) or pdag.has_edge(Z, Y)
                         for Z in pdag.predecessors(X)
                         for Y in undirected_neighbors
                         if not Y == Z
